@@ -37,36 +37,30 @@ Proof. exact (fun u c trans H1 H2 ops Hok => proj1 (sim_run u c trans H1 H2 ops 
 Print Assumptions index_refines_relational_any_lifecycle.
 
 (* The statement at full strength (no domain restriction) does NOT hold for the in-memory backend as
-   transcribed from the current code: one witness per excluded class (each reproduced on the real code by
-   harness/props/c16.py and listed in known_findings.txt with a proposed fix). *)
+   transcribed from the current code.  One defect is left (known_findings.txt:
+   mem-release-of-live-invocation-forgets-its-own-waits): MemBlockingControl.release_waiters(x) also forgets
+   what x itself waits for.  It shows when x is released while still runnable (class 4) ... *)
+Theorem release_of_live_invocation_refuted : diverges w_release_live.
+Proof. exact release_live_diverges. Qed.
+Print Assumptions release_of_live_invocation_refuted.
+
+(* ... and when an invocation that finished while waiting is auto-purged, registered again and awaited (class 1). *)
+Theorem reregistration_of_purged_waiter_refuted : diverges w_reregister_purged.
+Proof. exact reregister_purged_diverges. Qed.
+Print Assumptions reregistration_of_purged_waiter_refuted.
+
 Theorem backends_equivalent_full_refuted : ~ backends_equivalent_full.
 Proof. exact backends_equivalent_full_refuted_l. Qed.
 Print Assumptions backends_equivalent_full_refuted.
 
-Theorem reregistration_refuted : diverges w_reregister.
-Proof. exact reregister_diverges. Qed.
-Theorem retry_of_unknown_id_refuted : diverges w_retry_unknown.
-Proof. exact retry_unknown_diverges. Qed.
-Theorem blocking_with_unregistered_awaited_id_refuted : diverges w_blocking_unknown.
-Proof. exact blocking_unknown_diverges. Qed.
-Theorem release_of_live_invocation_refuted : diverges w_release_live.
-Proof. exact release_live_diverges. Qed.
-Theorem filter_by_status_with_unknown_id_refuted : diverges w_filter_unknown.
-Proof. exact filter_unknown_diverges. Qed.
-Theorem state_backend_purge_refuted : diverges w_sb_purge.
-Proof. exact sb_purge_diverges. Qed.
-Theorem auto_purge_after_state_backend_purge_refuted : diverges w_auto_purge_after_sb_purge.
-Proof. exact auto_purge_after_sb_purge_diverges. Qed.
-Print Assumptions release_of_live_invocation_refuted.
-
 Theorem witnesses_leave_the_domain_through_their_own_class :
-  map (fun w => snd (first_bad U0 C0 doc_transition 0 0 [] rel0 w))
-      [w_reregister; w_retry_unknown; w_blocking_unknown; w_release_live; w_filter_unknown; w_sb_purge]
-  = [1; 2; 3; 4; 5; 6].
+  map (fun w => snd (first_bad U0 C0 doc_transition [3; 7] 0 [] rel0 w)) [w_release_live; w_reregister_purged] = [4; 1].
 Proof. exact witness_classes. Qed.
 
 (* non-vacuity: a sequence inside the domain with non-trivial answers (pending scan, running scan and the
-   blocking query each report invocation 1 at the right moment; nothing blocks after it finished) *)
+   blocking query each report invocation 1 at the right moment; nothing blocks after it finished), which also
+   contains the inputs of the repaired classes: re-registration keeps the retry count (1), a retry of an
+   unknown id counts nothing (0), unknown awaited / filtered ids, a state-backend purge that clears workflow data *)
 Example c16_nonvacuous :
   all_ok U0 C0 doc_transition [] rel0 w_inside = true /\
   map render (rel_run U0 C0 doc_transition rel0 w_inside) =
@@ -74,5 +68,8 @@ Example c16_nonvacuous :
   nth 8 (rel_run U0 C0 doc_transition rel0 w_inside) OOk = OIds [1] /\
   nth 11 (rel_run U0 C0 doc_transition rel0 w_inside) OOk = OIds [1] /\
   nth 4 (rel_run U0 C0 doc_transition rel0 w_inside) OOk = OIds [1] /\
-  nth 14 (rel_run U0 C0 doc_transition rel0 w_inside) OOk = OIds [].
+  nth 14 (rel_run U0 C0 doc_transition rel0 w_inside) OOk = OIds [] /\
+  nth 26 (rel_run U0 C0 doc_transition rel0 w_inside) OOk = ONat 1 /\
+  nth 28 (rel_run U0 C0 doc_transition rel0 w_inside) OOk = ONat 0 /\
+  nth 34 (rel_run U0 C0 doc_transition rel0 w_inside) OOk = OOpt None.
 Proof. exact inside_example. Qed.
